@@ -73,6 +73,7 @@ fn main() {
         "corpus" => cmd_corpus(&m),
         "script" => script::cmd_script(&m),
         "debug-valid" => debug_valid(&args[2]),
+        "one" => cmd_one(&m),
         "emit-crate" => cmd_emit_crate(&m),
         "cross-check" => cmd_cross_check(&m),
         other => harness_error(&format!("unknown subcommand {other}")),
@@ -392,6 +393,28 @@ fn cmd_corpus(m: &BTreeMap<String, String>) {
 }
 
 #[allow(dead_code)]
+/// Probe: expands one request (`--attr <tokens> --item <tokens>`, or `--derive --item ..`) and
+/// prints the outcome and the output text.
+fn cmd_one(m: &BTreeMap<String, String>) {
+    let mode = if m.contains_key("derive") { req::Mode::Derive } else { req::Mode::Attr };
+    let attr = m.get("attr").cloned().unwrap_or_default();
+    let item = m.get("item").cloned().unwrap_or_default();
+    let (Some(a), Some(i)) = (req::lex(&attr), req::lex(&item)) else {
+        harness_error("--attr / --item do not lex");
+    };
+    let r = req::Request::new(mode, &a, &i);
+    println!("valid request: {}", gen::is_valid_request(&r));
+    let obs = exec::expand_and_observe(&r);
+    println!("outcome: {:?}  items={} impls={}", obs.outcome, obs.n_items, obs.n_impls);
+    if !obs.detail.is_empty() {
+        println!("detail: {}", obs.detail);
+    }
+    for e in &obs.errors {
+        println!("error message: {e}");
+    }
+    println!("output: {}", obs.text);
+}
+
 pub fn debug_valid(s: &str) {
     use quote::ToTokens;
     let ts = req::lex(s).unwrap();
